@@ -208,7 +208,3 @@ Proof.
   - destruct (flush _ _) as [[[q d] ev] ok] eqn:E. simpl. destruct (flush_ok mx _ _ _ _ _ _ E) as [Hq He]; [apply H|]. split; auto. apply upd_q_ok; auto.
   - destruct (_ && _); [apply start_address_claim_ok; auto | simpl; auto with safe].
 Qed.
-
-(* fields that SendMsg and its helpers never touch (used for the bound on ParseMessages and for the open state) *)
-Lemma claim_started_open n i : n_open (fst (claim_started n i)) = n_open n /\ n_mode (fst (claim_started n i)) = n_mode n.
-Proof. unfold claim_started. destruct (sched_is_enabled _ _); [destruct (sched_is_time _ _ _)|]; simpl; auto. Qed.
